@@ -315,6 +315,11 @@ class C05(Prop):
         # handles' calls in every order (engine hnd5: tools/props/handles.py, lean/H3/Drv/Hnd.lean)
         from props import handles
         L += handles.cases(big, rng)
+        # the datagram handle of the sibling crate (h3-datagram DatagramSender, a ConnectionState implementor bound to a
+        # request stream id): the transport fails its send_datagram, with the cell empty or holding an earlier error
+        for first in ("-", "I261.1", "I512.2", "Qa256", "Qt", "Qi.2"):
+            for q in ("Qt", "Qa256", "Qa0", "Qi.3", "Qu.5"):
+                L.append("cell dg %s %s" % (first, q))
         return L
 
     def project_all(self, lines, impls):
@@ -336,6 +341,9 @@ class C05(Prop):
         if w[0] == "hnd5":
             from props import handles
             return handles.klass(line, impl)
+        if w[:2] == ["cell", "dg"]:
+            t = impl.split()
+            return "dg/first=%s/q=%s/%s" % (w[2][:2], w[3][:2], "same" if len(t) > 2 and t[1][3:] == t[2][4:] else "different")
         n = sum(1 for x in w if x.startswith("S") and "=" in x)
         toks = impl.split(" | ")[0].split()
         f = dict(t.split("=", 1) for t in toks if "=" in t)
@@ -371,9 +379,13 @@ class C05(Prop):
         if line.startswith("hnd5 "):
             from props import handles
             return handles.trivial(line, impl)
+        if line.startswith("cell dg "):
+            return False
         return not impl.startswith("cell=") or impl.startswith("cell=- ")
 
     def shrink_candidates(self, line):
+        if line.startswith("cell dg "):
+            return []
         if line.startswith("hnd5 "):
             from props import handles
             return handles.shrink_candidates(line)
